@@ -63,15 +63,16 @@ const (
 )
 
 type c35Stream struct {
-	id       uint32
-	state    int
-	handler  bool // the harness handler runs for it and has not been released
-	srvRST   bool // the server sent RST_STREAM on it
-	cliRST   bool // the client sent RST_STREAM on it
-	endedBy  string
-	trailers bool
-	cl       int // declared content-length, -1 when absent
-	sent     int // DATA payload octets sent so far
+	id         uint32
+	state      int
+	handler    bool // the harness handler runs for it and has not been released
+	srvRST     bool // the server sent RST_STREAM on it
+	cliRST     bool // the client sent RST_STREAM on it
+	endedBy    string
+	trailers   bool
+	bodyClosed bool // the handler closed Request.Body while still running
+	cl         int  // declared content-length, -1 when absent
+	sent       int  // DATA payload octets sent so far
 }
 
 // room is how many more DATA octets the declared content-length allows (large when undeclared).
@@ -327,6 +328,11 @@ func (g *c35Gen) legal() *c35Step {
 	if len(pending) > 0 {
 		opts = append(opts, opt{"finish", 4})
 	}
+	// the handler closes the request body early: the client cannot know and keeps sending
+	closable := m.pick(func(s *c35Stream) bool { return s.state == mOpen && s.handler && !s.bodyClosed })
+	if len(closable) > 0 {
+		opts = append(opts, opt{"close-body", 2})
+	}
 	// streams the server itself reset: a crossing client RST_STREAM is legal and must be ignored (5.1)
 	srvReset := m.pick(func(s *c35Stream) bool { return s.state == mClosed && s.srvRST && !s.cliRST })
 	if len(srvReset) > 0 {
@@ -381,6 +387,8 @@ func (g *c35Gen) legal() *c35Step {
 	case "rst":
 		st.SID = rapid.SampledFrom(live).Draw(g.rt, g.lbl("sid"))
 		st.N = rapid.SampledFrom([]int{0x8, 0x0, 0x2}).Draw(g.rt, g.lbl("code"))
+	case "close-body":
+		st.SID = rapid.SampledFrom(closable).Draw(g.rt, g.lbl("sid"))
 	case "rst-crossing":
 		st.SID = rapid.SampledFrom(srvReset).Draw(g.rt, g.lbl("sid"))
 		st.N = 0x8
@@ -432,6 +440,14 @@ func (g *c35Gen) setupFor(kind string) *c35Step {
 	case "X-headers-hcr", "X-data-hcr":
 		if len(hcr) > 0 {
 			return nil
+		}
+		// half-closed via a non-empty DATA|END_STREAM that arrives after the handler closed the body
+		if bc := m.pick(func(s *c35Stream) bool { return s.state == mOpen && s.handler && s.bodyClosed && s.cl < 0 }); len(bc) > 0 {
+			return mark(c35Step{Kind: "data", SID: bc[0], N: rapid.IntRange(1, 30).Draw(g.rt, g.lbl("n")), EndStream: true})
+		}
+		anyClosedBody := len(m.pick(func(s *c35Stream) bool { return s.bodyClosed })) > 0
+		if len(open) > 0 && m.streams[open[0]].handler && m.streams[open[0]].cl < 0 && !anyClosedBody && rapid.IntRange(0, 2).Draw(g.rt, g.lbl("viaCloseBody")) == 0 {
+			return mark(c35Step{Kind: "close-body", SID: open[0]})
 		}
 		if len(open) > 0 && m.streams[open[0]].handler && m.streams[open[0]].cl < 0 && rapid.Bool().Draw(g.rt, g.lbl("viaData")) {
 			if rapid.Bool().Draw(g.rt, g.lbl("viaTrailers")) {
@@ -735,6 +751,13 @@ func (x *c35Run) keyFor(st c35Step) string {
 		} else {
 			key += "/no-end-stream"
 		}
+		if t := x.m.streams[st.SID]; t != nil && t.bodyClosed {
+			key += "/after-body-closed"
+		}
+	case "X-data-hcr":
+		if t := x.m.streams[st.SID]; t != nil && t.bodyClosed {
+			key += "/after-body-closed"
+		}
 	case "X-headers-closed", "X-data-closed":
 		if t := x.m.streams[st.SID]; t != nil && t.endedBy != "" {
 			key += "/after-" + t.endedBy
@@ -847,6 +870,29 @@ func (x *c35Run) exec(st c35Step) bool {
 	if st.Kind == "finish-race" {
 		return x.execFinishRace(st, target, mark)
 	}
+	if st.Kind == "close-body" {
+		hs := x.handlerReady(fmt.Sprint(st.SID))
+		if hs == nil {
+			return true
+		}
+		hs.release <- hAction{CloseBody: true}
+		if !x.r.h.waitFor(func() bool { return hs.bodyClosed || hs.returned }) {
+			x.rt.Skipf("C35: watchdog waiting for the handler to close the body")
+		}
+		target.bodyClosed = true
+		if !x.sync {
+			return true
+		}
+		if b := x.r.cli.barrier(); b != bAcked {
+			if b == bTimeout {
+				x.rt.Skipf("C35: watchdog after close-body")
+			}
+			x.noteEnded(b)
+			x.fail("legal-rejected/close-body", "connection ended (%v) after the handler of stream %d closed its request body", b, st.SID)
+			return false
+		}
+		return true
+	}
 	x.send(st)
 	// ---- model update for legal steps
 	switch st.Kind {
@@ -927,6 +973,15 @@ func (x *c35Run) exec(st c35Step) bool {
 				return false
 			}
 		case "data", "trailers":
+			if re.rst != nil && st.Kind == "data" && target.bodyClosed {
+				// the handler does not want the body: the server may reset the stream (any code)
+				x.classes["data-after-close-body:rst"] = true
+				target.state, target.srvRST, target.endedBy = mClosed, true, "server-rst"
+				return true
+			}
+			if st.Kind == "data" && target.bodyClosed {
+				x.classes["data-after-close-body:accepted"] = true
+			}
 			if re.rst != nil {
 				x.fail("legal-rejected/"+st.Kind, "legal %s on open stream %d answered with %v", st.Kind, st.SID, re.rst)
 				return false
